@@ -35,4 +35,9 @@ VARIANTS = [
          edits=[dict(file=PR, old="               f'.set({facilities.runtime.name})'\n               f'.set({facilities.dispatcher.name})))',", new="               f'.set({facilities.dispatcher.name})'\n               f'.set({facilities.runtime.name})))',")]),
     dict(id='c09-message-reworded-ok', prop='C09', expect='silent',
          edits=[dict(file=PR, old="Overlapping dispatcher found (dzn::pump)", new="a dispatcher is already registered")]),
+    # the member block written as an explicit loop (found by the refactoring fuzz: the literal sequence is unrolled by N8)
+    dict(id='c09-member-variables-loop-ok', prop=['C09', 'C13'], expect='silent',
+         edits=[dict(file='adv_shell/common.py', old='        member_vars = [str(mv) for mv in [self.runtime,\n                                          self.dispatcher,\n                                          self.locator] if mv is not None]\n', new='        member_vars = []\n        for mv in [self.runtime, self.dispatcher, self.locator]:\n            if mv is not None:\n                member_vars.append(str(mv))\n')]),
+    dict(id='c09-member-variables-loop-locator-first', prop='C09', expect='violation', rule='C09.order',
+         edits=[dict(file='adv_shell/common.py', old='        member_vars = [str(mv) for mv in [self.runtime,\n                                          self.dispatcher,\n                                          self.locator] if mv is not None]\n', new='        member_vars = []\n        for mv in [self.locator, self.runtime, self.dispatcher]:\n            if mv is not None:\n                member_vars.append(str(mv))\n')]),
 ]
